@@ -5,6 +5,8 @@ package main
 import (
 	"fmt"
 	"go/token"
+	"go/types"
+	"sort"
 	"strings"
 
 	"golang.org/x/tools/go/ssa"
@@ -302,6 +304,12 @@ func f4(w *World, r *Report) {
 			want := "types.GasToFee(" + cs + ".GasUsed, recv.govCtrler.GovParams.GasPrice())"
 			var addSite string
 			ev := func(in ssa.Instruction) string {
+				// the fee sum is touched: the event sits at the primitive, wherever it is
+				// wrapped (AddFee, a variant taking gas and price, a lock-free core)
+				if fe := w.feeSumEvent(in); fe != "" {
+					addSite = site(w, in)
+					return "ADD\x01" + fe
+				}
 				c, isC := in.(ssa.CallInstruction)
 				if !isC {
 					return ""
@@ -312,12 +320,6 @@ func f4(w *World, r *Report) {
 					if len(a) == 1 {
 						return "EXEC\x01" + w.Canon(a[0])
 					}
-				case "AddFee":
-					rcv, a := callRecvArgs(c.Common())
-					if rn := recvNamed(c.Common()); rn != nil && rn.Obj().Name() == "BlockContext" && len(a) == 1 {
-						addSite = site(w, c)
-						return "ADD\x01" + w.Canon(rcv) + "\x01" + w.Canon(a[0])
-					}
 				}
 				return ""
 			}
@@ -326,7 +328,11 @@ func f4(w *World, r *Report) {
 				fe := w.newFactEval(nil, f)
 				saved := w.branchMarkers
 				w.branchMarkers = false
+				// the primitive may sit below a helper of the application, the context's
+				// method and its lock-free core
+				w.enumDepth = 4
 				ps, complete := w.enumPaths(dt, fe.eval, ev, 6000)
+				w.enumDepth = 0
 				w.branchMarkers = saved
 				return ps, complete && len(fe.used) > 0
 			}
@@ -388,32 +394,34 @@ func f4(w *World, r *Report) {
 		}
 		r.Check(ok, "F-4", "GasToFee", "fee = gas x price in 256-bit arithmetic", "GasToFee is not gas x price", fnSite(w, gf))
 	}
-	w.checkCallers(r, "F-4", fref{pkgCT, "BlockContext", "AddFee"}, map[string]string{"node.(*RigoApp).deliverTxSync": "the success branch of a delivery", "node.(*RigoApp).deliverTxAsync$1$1": "unused asynchronous delivery (no caller reaches deliverTxAsync: C01 D-4)"}, 1)
+	// the methods of the block context that can change the fee sum: each is called
+	// only where a delivery succeeded
+	adders := w.feeAdders()
+	feeCallers := map[string]string{"node.(*RigoApp).deliverTxSync": "the success branch of a delivery", "node.(*RigoApp).deliverTxAsync$1$1": "unused asynchronous delivery (no caller reaches deliverTxAsync: C01 D-4)"}
+	nCallers := 0
+	for _, ad := range adders {
+		w.checkCallers(r, "F-4", fref{pkgCT, "BlockContext", ad.Name()}, feeCallers, 0)
+		nCallers += len(w.nodeCallers(ad))
+	}
+	if nCallers < 1 {
+		r.Undecided("F-4", "types.(*BlockContext).AddFee:callers", "0 caller(s) found, expected at least 1: the primitive is no longer used where the property needs it")
+	}
 	// feeSum writers
+	allowedW := map[string]string{"types.NewBlockContext": "starts at zero", "types.(*BlockContext).UnmarshalJSON": "reloads the persisted context"}
+	for _, ad := range adders {
+		allowedW[w.FName(ad)] = "adds one fee (its callers are checked)"
+	}
 	for _, fn := range w.nodeFuncs() {
 		for _, b := range fn.Blocks {
 			for _, in := range b.Instrs {
-				var isW bool
-				switch x := in.(type) {
-				case *ssa.Store:
-					if fa, ok := x.Addr.(*ssa.FieldAddr); ok {
-						n, f := fieldOf(fa.X.Type(), fa.Field)
-						isW = f != nil && f.Name() == "feeSum" && namedIs(n, absPkg(pkgCT), "BlockContext")
-					}
-				case ssa.CallInstruction:
-					if rv, ok := mutatesZ(x.Common()); ok {
-						isW = w.isFieldLoad(rv, "", "feeSum")
-					}
-				}
-				if !isW {
+				if w.feeSumEvent(in) == "" {
 					continue
 				}
 				name := w.FName(fn)
-				allowed := map[string]string{"types.NewBlockContext": "starts at zero", "types.(*BlockContext).AddFee": "adds one fee", "types.(*BlockContext).UnmarshalJSON": "reloads the persisted context"}
 				key := "BlockContext.feeSum:writer:" + name
-				if why, ok := allowed[name]; ok {
+				if why, ok := allowedW[name]; ok {
 					r.OK("F-4", key, "allowed writer: "+why, site(w, in))
-				} else if via, ok := w.onlyReachedFrom(fn, allowed, 0, map[*ssa.Function]bool{}); ok && (fn.Object() == nil || !fn.Object().Exported()) {
+				} else if via, ok := w.onlyReachedFrom(fn, allowedW, 0, map[*ssa.Function]bool{}); ok && (fn.Object() == nil || !fn.Object().Exported()) {
 					r.OK("F-4", key, "helper of an allowed writer: every call of it comes from "+via, site(w, in))
 				} else {
 					r.Violate("F-4", key, "the block fee sum is written outside NewBlockContext/AddFee/UnmarshalJSON", nil, site(w, in))
@@ -431,15 +439,26 @@ func f4(w *World, r *Report) {
 		}
 		r.Check(ok, "F-4", "NewBlockContext:feeSum-zero", "a new block context starts with a zero fee sum", "a new block context does not start with a zero fee sum", fnSite(w, nb))
 	}
-	af := needFn(r, "F-4", w, fref{pkgCT, "BlockContext", "AddFee"})
-	if af != nil {
-		ok := false
-		for _, c := range CallsIn(af) {
-			if w.canonCall(c.Common(), 0) == "recv.feeSum.Add(recv.feeSum, p0)" {
-				ok = true
+	if len(adders) == 0 {
+		r.Violate("F-4", "AddFee:adds", "no method of the block context adds to the fee sum", nil)
+	}
+	for _, af := range adders {
+		// every path through it adds to the running sum exactly once (the amount is
+		// checked where it is called: deliverTxSync:AddFee:amount)
+		saved := w.branchMarkers
+		w.branchMarkers = false
+		ps, complete := w.enumPaths(af, func(ssa.Value) (bool, bool) { return false, false }, func(in ssa.Instruction) string { return w.feeSumEvent(in) }, 500)
+		w.branchMarkers = saved
+		ok := complete && len(ps) > 0
+		for _, p := range ps {
+			if p.Term == "panic" {
+				continue
+			}
+			if len(p.Events) != 1 || !strings.HasPrefix(p.Events[0], "recv\x01") {
+				ok = false
 			}
 		}
-		r.Check(ok, "F-4", "AddFee:adds", "feeSum += fee", "AddFee does not add the fee to the running sum", fnSite(w, af))
+		r.Check(ok, "F-4", af.Name()+":adds", "feeSum += fee, once on every path", af.Name()+" does not add the fee to the running sum", fnSite(w, af))
 	}
 	bb := needFn(r, "F-4", w, fref{"node", "RigoApp", "BeginBlock"})
 	if bb != nil {
@@ -453,24 +472,35 @@ func f4(w *World, r *Report) {
 	}
 	eb := needFn(r, "F-4", w, fref{"ctrlers/account", "AcctCtrler", "EndBlock"})
 	if eb != nil {
+		// the credit and the mark, in EndBlock itself or in a helper it calls (read in
+		// EndBlock's terms)
 		var add, mark ssa.CallInstruction
-		for _, c := range CallsIn(eb) {
-			switch callName(c.Common()) {
-			case "AddBalance":
-				add = c
-			case "setAccountCommittable":
-				mark = c
+		var hf *ssa.Function
+		for _, f := range w.withModuleCallees(eb, 2) {
+			var a, m ssa.CallInstruction
+			for _, c := range CallsIn(f) {
+				switch callName(c.Common()) {
+				case "AddBalance":
+					a = c
+				case "setAccountCommittable":
+					m = c
+				}
+			}
+			if a != nil && m != nil && (add == nil || f == eb) {
+				add, mark, hf = a, m, f
 			}
 		}
 		ok := add != nil && mark != nil
 		if ok {
 			rcv, a := callRecvArgs(add.Common())
 			_, ma := callRecvArgs(mark.Common())
-			rc := w.Canon(rcv)
-			// the account is the one at the header's proposer address (found or created), in the consensus overlay
-			okAcct := strings.Contains(rc, ".GetProposerAddress(), true)") && strings.HasPrefix(rc, "phi(recv.findAccount(") && strings.Contains(rc, "|types.NewAccount(") && strings.Count(rc, "GetProposerAddress()") == 2
-			tr, isC := constBool(ma[1])
-			ok = okAcct && len(a) == 1 && w.Canon(a[0]) == "p0.SumFee()" && sameValue(ma[0], rcv) && isC && tr && instrDominates(add, mark)
+			ok = w.inCallerTerms(eb, hf, func() bool {
+				rc := w.Canon(rcv)
+				// the account is the one at the header's proposer address (found or created), in the consensus overlay
+				okAcct := strings.Contains(rc, ".GetProposerAddress(), true)") && strings.HasPrefix(rc, "phi(recv.findAccount(") && strings.Contains(rc, "|types.NewAccount(") && strings.Count(rc, "GetProposerAddress()") == 2
+				tr, isC := constBool(ma[1])
+				return okAcct && len(a) == 1 && w.Canon(a[0]) == "p0.SumFee()" && sameValue(ma[0], rcv) && isC && tr && instrDominates(add, mark)
+			})
 			// header is the block's own header
 			hdr := false
 			for _, b := range eb.Blocks {
@@ -486,9 +516,22 @@ func f4(w *World, r *Report) {
 		// AddBalance error returned before marking; success return carries the mark
 		okRet := false
 		if mark != nil {
-			for _, b := range eb.Blocks {
-				if ret, isR := lastInstr(b).(*ssa.Return); isR && ret.Block() != eb.Recover {
-					if sameValue(retResult(ret, 1), callValue(mark)) {
+			returns := func(f *ssa.Function, v ssa.Value, idx int) bool {
+				for _, b := range f.Blocks {
+					if ret, isR := lastInstr(b).(*ssa.Return); isR && ret.Block() != f.Recover && idx < len(ret.Results) {
+						if sameValue(retResult(ret, idx), v) {
+							return true
+						}
+					}
+				}
+				return false
+			}
+			if hf == eb {
+				okRet = returns(eb, callValue(mark), 1)
+			} else if hf.Signature.Results().Len() == 1 && returns(hf, callValue(mark), 0) {
+				// the helper hands the mark's result back and EndBlock returns the helper's
+				for _, c := range CallsIn(eb) {
+					if c.Common().StaticCallee() == hf && returns(eb, callValue(c), 1) {
 						okRet = true
 					}
 				}
@@ -635,4 +678,84 @@ func (w *World) configHasNoBaseFee(v ssa.Value) bool {
 		}
 	}
 	return false
+}
+
+// feeSumEvent: in changes the fee sum of a block context. For `sum.Add(sum, x)` the
+// answer is "<context>\x01<x>" in canonical form; any other change (a store to the
+// field, another 256-bit mutation) is "?<what>".
+func (w *World) feeSumEvent(in ssa.Instruction) string {
+	isFee := func(v ssa.Value) ssa.Value {
+		v = stripConv(v)
+		if u, ok := v.(*ssa.UnOp); ok && u.Op == token.MUL {
+			v = u.X
+		}
+		if fa, ok := v.(*ssa.FieldAddr); ok {
+			if n, f := fieldOf(fa.X.Type(), fa.Field); f != nil && f.Name() == "feeSum" && namedIs(n, absPkg(pkgCT), "BlockContext") {
+				return fa.X
+			}
+		}
+		return nil
+	}
+	switch x := in.(type) {
+	case *ssa.Store:
+		if fa, ok := x.Addr.(*ssa.FieldAddr); ok && isFee(fa) != nil {
+			if _, fresh := stripConv(fa.X).(*ssa.Alloc); fresh {
+				return "" // the literal of a constructor
+			}
+			return "?store " + w.Canon(x.Val)
+		}
+	case ssa.CallInstruction:
+		rv, ok := mutatesZ(x.Common())
+		if !ok {
+			return ""
+		}
+		base := isFee(rv)
+		if base == nil {
+			return ""
+		}
+		if f := x.Common().StaticCallee(); f != nil && f.Name() == "Add" && len(x.Common().Args) == 3 {
+			a, b := x.Common().Args[1], x.Common().Args[2]
+			switch {
+			case isFee(a) != nil && isFee(b) == nil:
+				return w.Canon(base) + "\x01" + w.Canon(b)
+			case isFee(b) != nil && isFee(a) == nil:
+				return w.Canon(base) + "\x01" + w.Canon(a)
+			}
+		}
+		return "?" + w.canonCall(x.Common(), 0)
+	}
+	return ""
+}
+
+// feeAdders: the methods of *BlockContext (other than the decoder) from which a
+// change of the fee sum is reachable within the package.
+func (w *World) feeAdders() []*ssa.Function {
+	var out []*ssa.Function
+	for _, fn := range w.ModuleFuncs() {
+		if fn.Signature.Recv() == nil || fn.Parent() != nil || fn.Name() == "UnmarshalJSON" || fn.Object() == nil || !fn.Object().Exported() {
+			continue
+		}
+		rn, _ := types.Unalias(deref(fn.Signature.Recv().Type())).(*types.Named)
+		if rn == nil || !namedIs(rn, absPkg(pkgCT), "BlockContext") {
+			continue
+		}
+		hit := false
+		for _, hf := range w.withModuleCallees(fn, 2) {
+			if hf != fn && (hf.Object() == nil || hf.Object().Exported()) {
+				continue // another method of the API: counted on its own
+			}
+			for _, b := range hf.Blocks {
+				for _, in := range b.Instrs {
+					if w.feeSumEvent(in) != "" {
+						hit = true
+					}
+				}
+			}
+		}
+		if hit {
+			out = append(out, fn)
+		}
+	}
+	sort.Slice(out, func(i, j int) bool { return out[i].Name() < out[j].Name() })
+	return out
 }
